@@ -1,5 +1,5 @@
 """Metrics rules (C18)."""
-from mirq.prov import subterms, term_str, strip_wrap, strip_clone
+from mirq.prov import subterms, term_str, strip_wrap, strip_clone, is_lock_result
 from mirq.report import short, AnchorMissing
 from rules.pipe import _pipe, _loop_of
 from rules.queue import _dispatch_channel_site
@@ -226,7 +226,7 @@ def me6_errors(ctx, rep):
     for p in pe.paths:
         if p.end != "return":
             continue
-        slot = [v for (k, v) in p.decisions if k[0] == "discr" and any(st[0] == "field" and st[2] == A.f_tx for st in subterms(k[1])) and k[1][0] != "lockres"]
+        slot = [v for (k, v) in p.decisions if k[0] == "discr" and any(st[0] == "field" and st[2] == A.f_tx for st in subterms(k[1])) and not is_lock_result(k[1])]
         errs = [e for e in p.calls() if e.site is not None and A.metric_call(e.site) == "error_occurred"]
         closed = bool(slot) and slot[0].lstrip("*") == "None"
         rep.check(len(errs) == (1 if closed else 0), R, "counted-iff-rejected-after-close", ctx.where(d), "path [%s]: closed=%s, error_occurred calls=%d" % (p.describe(), closed, len(errs)), "path [%s]: closed=%s but %d error_occurred call(s)" % (p.describe(), closed, len(errs)))
